@@ -1,6 +1,7 @@
 """C13 — each day is predicted by exactly one sub-model: that of its season and day type."""
 import itertools
 import json
+import os
 import math
 
 import numpy as np
@@ -355,7 +356,97 @@ def judge_select(c, rec):
 _SEEN = {}
 
 
-JUDGES = {"cand": judge_cand, "route": judge_route, "select": judge_select}
+# ------------------------------------------------------------------ candhist: the candidate set is a function of (baseline, settings) only
+def site_frame(site):
+    """Sites with overlapping or with well separated season / day-type clusters (what the Gaussian reduction looks at)."""
+    rng = np.random.default_rng(site["seed"])
+    idx = synth.local_midnights(site.get("start_day", 365), 365, site.get("tz", "America/Chicago"))
+    doy = idx.dayofyear.values
+    kind = site["kind"]
+    if kind == "mild":  # clusters on top of each other; winter differs by a small slope only
+        T = 62 + site["amp"] * np.sin(2 * np.pi * (doy - 105) / 365.25) + rng.normal(0, 6, len(idx))
+        winter = np.isin(idx.month, [11, 12, 1, 2])
+        obs = 30 - site["slope"] * (T - 61) * winter + rng.normal(0, 2.0, len(idx))
+    elif kind == "continental":  # clearly separated seasons
+        T = 55 + 30 * np.sin(2 * np.pi * (doy - 105) / 365.25) + rng.normal(0, 2, len(idx))
+        obs = 20 + 0.9 * np.clip(50 - T, 0, None) + 1.3 * np.clip(T - 68, 0, None) + rng.normal(0, 1.0, len(idx))
+    elif kind == "weekend":  # weekday and weekend clusters far apart, seasons alike
+        T = 60 + 5 * np.sin(2 * np.pi * (doy - 105) / 365.25) + rng.normal(0, 4, len(idx))
+        obs = 30 + 25.0 * (idx.dayofweek.values >= 5) + rng.normal(0, 1.0, len(idx))
+    else:  # flat
+        T = 58 + 12 * np.sin(2 * np.pi * (doy - 105) / 365.25) + rng.normal(0, 5, len(idx))
+        obs = 25 + rng.normal(0, 3.0, len(idx))
+    return pd.DataFrame({"temperature": T, "observed": obs}, index=idx)
+
+
+HIST_SETTINGS = {
+    "current_default": None,
+    "legacy_gaussian": {"developer_mode": True, "silent_developer_mode": True,
+                        "split_selection": {"allow_separate_summer": True, "allow_separate_shoulder": True, "allow_separate_winter": True,
+                                            "allow_separate_weekday_weekend": True, "reduce_splits_by_gaussian": True,
+                                            "reduce_splits_num_std": [1.4, 0.89]}},
+}
+
+
+def site_candidates(site, sname):
+    from opendsm import eemeter as em
+
+    st_ = HIST_SETTINGS[sname]
+    m = em.DailyModel() if st_ is None else em.DailyModel(model="legacy", settings=json.loads(json.dumps(st_)))
+    m.df_meter, _ = m._initialize_data(site_frame(site))
+    return list(m._combinations())
+
+
+def clean_process_candidates(site, sname):
+    """The same question asked in a fresh interpreter that has computed nothing else."""
+    import subprocess
+    import sys
+    from ..env import VERIF
+
+    env = dict(os.environ)
+    env["PYTHONPATH"] = os.pathsep.join([os.environ.get("VERIF_REPO", "/repo"), VERIF, os.path.join(VERIF, ".deps")])
+    r = subprocess.run([sys.executable, "-m", "vf.props.c13", json.dumps({"site": site, "settings": sname})], cwd=VERIF, env=env,
+                       capture_output=True, text=True)
+    for line in r.stdout.splitlines():
+        if line.startswith("CANDS "):
+            return json.loads(line[6:])
+    raise RuntimeError("clean-process worker failed: %s" % (r.stderr[-400:] or r.stdout[-400:]))
+
+
+def judge_candhist(c, rec):
+    """A history of candidate computations in this process; every answer must equal the one a fresh process gives for that site."""
+    from concurrent.futures import ThreadPoolExecutor
+
+    sites, sname = c["sites"], c["settings"]
+    with ThreadPoolExecutor(max_workers=4) as ex:
+        clean = list(ex.map(lambda s: clean_process_candidates(s, sname), sites))
+    seen_multi = False
+    for pos, j in enumerate(c["order"]):
+        got = site_candidates(sites[j], sname)
+        if got != clean[j]:
+            rec.violation("candhist/candidates-depend-on-history", c, "step %d (%s site, after %s): candidates %s, a fresh process gives %s" % (
+                pos, sites[j]["kind"], [sites[k]["kind"] for k in c["order"][:pos]], got[:6], clean[j][:6]))
+            break
+        seen_multi = seen_multi or len(got) > 1
+    distinct_sets = len({json.dumps(x) for x in clean})
+    rec.case(c, distinct_sets >= 2 and seen_multi, ["sub=candhist", "settings=" + sname, "distinct-candidate-sets=%d" % distinct_sets])
+
+
+def candhist_cases(seed):
+    out = []
+    for i, sname in enumerate(["current_default", "legacy_gaussian", "legacy_gaussian", "current_default"]):
+        s0 = (seed * 7 + i * 13) % 1000
+        sites = [{"kind": "mild", "seed": s0, "amp": 3.0 + (s0 % 3), "slope": 0.3},
+                 {"kind": "continental", "seed": s0 + 1},
+                 {"kind": "weekend", "seed": s0 + 2},
+                 {"kind": "flat", "seed": s0 + 3},
+                 {"kind": "mild", "seed": s0 + 4, "amp": 2.0, "slope": 0.45}]
+        order = [[0, 3, 4, 1, 0, 4, 2, 3, 0], [4, 0, 2, 4, 3, 1, 0, 4], [3, 0, 1, 2, 0, 3, 4], [0, 2, 0, 1, 3, 4, 0]][i]
+        out.append({"kind": "candhist", "sites": sites, "settings": sname, "order": order})
+    return out
+
+
+JUDGES = {"cand": judge_cand, "route": judge_route, "select": judge_select, "candhist": judge_candhist}
 
 
 def judge(c, rec):
@@ -389,6 +480,9 @@ def shards(tier, seed):
         reuse.append(cse)
     out.append({"sub": "list", "cases": reuse[:2]})
     out.append({"sub": "list", "cases": reuse[2:]})
+    ch = candhist_cases(seed)
+    for cse in (ch[:2] if q else ch):
+        out.append({"sub": "list", "cases": [cse]})
     return out
 
 
@@ -411,3 +505,19 @@ def exhaustive_note(tier, merged):
     return ("sub-domain 'cand': 16 flag combinations x gaussian on/off x 4 season maps x 3 weekday maps x 4 data shapes "
             "enumerated completely; 'route': all %d exact-cover layouts (thorough: x all 12 map pairs, every date of 2020-2021); "
             "'select' is sampled" % len(gp.LAYOUTS))
+
+
+if __name__ == "__main__":
+    # clean-process worker of the candhist sub-domain: python -m vf.props.c13 '{"site": ..., "settings": ...}'
+    import sys as _sys
+
+    from .. import env as _env
+
+    _env.setup()
+    import contextlib as _ctx
+    import io as _io
+
+    _job = json.loads(_sys.argv[1])
+    with _ctx.redirect_stdout(_io.StringIO()):
+        _c = site_candidates(_job["site"], _job["settings"])
+    print("CANDS " + json.dumps(_c))
